@@ -29,7 +29,7 @@ pos("revert-F8-setint-sticky","decimal.go","		z.form = zero\n		if z.prec == 0 {\
 pos("revert-F6-setbitsexp-prec0","decimal.go","	if z.prec == 0 {\n		// as for SetInt: enough precision for the whole mantissa\n		digits := uint64(len(z.mant)) * _DW\n		if digits > MaxPrec {\n			digits = MaxPrec\n		}\n		z.prec = umax32(uint32(digits), DefaultDecimalPrec)\n	}\n","","PREC0","(*Decimal).SetBitsExp",quick=True,note="F6")
 pos("sqrt-prec-not-restored-sticky","decimal_sqrt.go","	z.prec, z.mode = prec, mode","	_, z.mode = prec, mode","FX-STICKY","(*Decimal).Sqrt/z.prec")
 pos("fma-prec-not-restored-sticky","decimal.go","		// restore precision without rounding\n		z0.prec = prec\n","		_ = prec\n","FX-STICKY","(*Decimal).FMA/z.prec")
-pos("setfloat-prec-not-decremented","decimal.go","			z = z.Mul(z, t.pow2(uint64(exp2)))\n		}\n		z.prec--\n	}\n	z.round(0)\n	return z\n}\n\n// SetFloat64","			z = z.Mul(z, t.pow2(uint64(exp2)))\n		}\n	}\n	z.round(0)\n	return z\n}\n\n// SetFloat64","FX-STICKY","(*Decimal).SetFloat/z.prec")
+pos("setfloat-prec-not-restored","decimal.go","			z = z.Mul(z, t.pow2(uint64(exp2)))\n		}\n		z.prec = prec\n	}\n	z.round(0)\n	return z\n}\n\n// SetFloat64","			z = z.Mul(z, t.pow2(uint64(exp2)))\n		}\n		_ = prec\n	}\n	z.round(0)\n	return z\n}\n\n// SetFloat64","FX-STICKY","(*Decimal).SetFloat/z.prec")
 pos("mul-without-prologue","decimal.go","	if z.prec == 0 {\n		z.prec = umax32(x.prec, y.prec)\n	}\n\n	z.neg = x.neg != y.neg\n\n	if x.form == finite && y.form == finite {\n		// x * y (common case)\n		z.umul(x, y)","	z.neg = x.neg != y.neg\n\n	if x.form == finite && y.form == finite {\n		// x * y (common case)\n		z.umul(x, y)","PREC0","(*Decimal).Mul")
 pos("add-copies-operand-mode","decimal.go","		yneg := y.neg\n\n		z.neg = x.neg\n		if x.neg == yneg {\n			// x + y == x + y","		yneg := y.neg\n		z.mode = x.mode\n\n		z.neg = x.neg\n		if x.neg == yneg {\n			// x + y == x + y","FX-STICKY","(*Decimal).Add/z.mode")
 pos("set-always-takes-operand-prec","decimal.go","		if z.prec == 0 {\n			z.prec = x.prec\n		} else if z.prec < x.prec {\n			z.round(0)\n		}","		if z.prec != x.prec {\n			z.prec = x.prec\n		}","FX-STICKY","(*Decimal).Set/z.prec")
